@@ -1,6 +1,7 @@
 (* C08  Data limits stop the transfer at the limit (cache level).  Statements only. *)
 From Coq Require Import List NArith ZArith String Bool.
 From DT Require Import GenStatus GenEvent FsmTypes GenFsm Fsm FsmFacts Caches C07Proofs C08Proofs.
+From DT Require Node NodeLiftS UpdateProofs.
 Import ListNotations.
 Local Open Scope Z_scope.
 
@@ -49,3 +50,19 @@ Theorem C08_limit_and_progress_survive_restart :
   forall k c cc, fst (crash (c, cc)) = c /\ pg_ok k (fst (crash (c, cc))) (snd (crash (c, cc))).
 Proof. exact limit_and_progress_survive_restart. Qed.
 Print Assumptions C08_limit_and_progress_survive_restart.
+
+(* the manager's half of the rule (UpdateValidationStatus once the channel c has been read): an
+   accepting update resumes the transport only if the result does not leave the request paused --
+   Node.leave_paused: no forced pause, no pending finalization, new limit zero or above the progress
+   made in the limited direction -- and pauses it only if it does *)
+Theorem C08_accepting_update_resumes_only_when_not_left_paused :
+  forall self k c vr, Node.leave_paused vr c = true ->
+    NodeLiftS.all_instr self UpdateProofs.no_resume _ (UpdateProofs.uv_body k c vr).
+Proof. exact UpdateProofs.accepting_update_resumes_only_when_not_left_paused. Qed.
+Print Assumptions C08_accepting_update_resumes_only_when_not_left_paused.
+
+Theorem C08_accepting_update_pauses_only_when_left_paused :
+  forall self k c vr, Node.leave_paused vr c = false ->
+    NodeLiftS.all_instr self UpdateProofs.no_pause _ (UpdateProofs.uv_body k c vr).
+Proof. exact UpdateProofs.accepting_update_pauses_only_when_left_paused. Qed.
+Print Assumptions C08_accepting_update_pauses_only_when_left_paused.
